@@ -6,6 +6,7 @@ import ZapVerif.Model.Deliver
 import ZapVerif.Props.C10
 import ZapVerif.Model.TransCEAddX
 import ZapVerif.Proofs.TransLogger
+import ZapVerif.Proofs.TransGrpc
 /-! # C06 — Panic and Fatal always terminate, after the entry is written and flushed
 
 The front ends, their levels and every guard between an exported method and `Logger.check` are the regenerated
@@ -447,5 +448,95 @@ theorem Logger_check_panic_fatal_armed (P : Par) (l : Int) (hl : l = 4 ∨ l = 5
     cases hc : P.chk core (.list [.bytes name, P.now clock, .int 5, .bytes msg]) with
     | none => simp [checkSpec, terminal, hc, after]
     | some cs => rw [hc] at hn; cases hn
+
+end ZapVerif.C06
+
+/-! ## the gRPC adapter's printers ARE the source (translator round 4, table `Gen/TransGrpc.lean`)
+
+zapgrpc `sprintln`, `printer.Print` / `Printf` / `Println` and `Logger.Infoln` / `Warningln` / `Errorln`, translated
+mechanically; the delegate's methods are recorded calls, `Enabled` and `fmt.Sprintln` parameters.  `Println` is skipped
+only below DPanic on a disabled level: the `fatal` printer (`Fatalln`) always reaches the delegate's `Fatal`
+(`printer_Println_fatal_never_skipped`) — the front-end side of "a fatal entry is never skipped". -/
+set_option linter.unusedSimpArgs false
+namespace ZapVerif.C06
+open ZapVerif ZapVerif.GoMini ZapVerif.TransGrpc ZapVerif.Gen.TransGrpc
+
+/-- `sprintln`: `fmt.Sprintln` without its last byte (never a slice panic: `Sprintln` ends in a newline) -/
+theorem sprintln_exec_matches_source (P : Par) (args : List Val) (fl : Env) (fuel : Nat)
+    (hne : P.sprintln args ≠ []) (hlen : ((P.sprintln args).length : Int) < 9223372036854775808) :
+    (exec (X P) (fuel + 1) sprintln_body ⟨[("p0", .list args)], fl⟩).fin = some ([.bytes (P.sprintln args).dropLast], fl) := by
+  rw [exec_succ]
+  have hpos : 0 < (P.sprintln args).length := List.length_pos_iff.mpr hne
+  have hw : wrap .int (((P.sprintln args).length : Int) - 1) = ((P.sprintln args).length : Int) - 1 := by
+    rw [wrap_int_id] <;> omega
+  have hc : (0 : Int) ≤ ((P.sprintln args).length : Int) - 1 ∧ ((P.sprintln args).length : Int) - 1 ≤ (P.sprintln args).length := by omega
+  have ht : (((P.sprintln args).length : Int) - 1).toNat = (P.sprintln args).length - 1 := by omega
+  have h1 : (1 : Int) ≤ ((P.sprintln args).length : Int) := by omega
+  simp [sprintln_body, hw, hc, ht, h1, List.dropLast_eq_take]
+
+/-- `printer.Print` / `Printf`: the delegate's function is called with exactly the arguments, whatever the level -/
+theorem printer_Print_matches_source (P : Par) (args ev : List Val) (enab pr prf : Val) (l : Int) (fuel : Nat) :
+    run (X P) (fuel + 1) "printer_Print" [.list args] (pEnv ev enab l pr prf) =
+      .done [] (pEnv (ev ++ [.list [TransGrpc.nm "PrintFn.call", pr, .list args]]) enab l pr prf) := by
+  apply run_of_fin (X P) _ _ Gen.TransGrpc.printer_Print _ _ _ _ rfl rfl
+  rw [exec_succ]; simp [printer_Print_body, pEnv, nm_print]
+
+theorem printer_Printf_matches_source (P : Par) (fmt : Bytes) (args ev : List Val) (enab pr prf : Val) (l : Int) (fuel : Nat) :
+    run (X P) (fuel + 1) "printer_Printf" [.bytes fmt, .list args] (pEnv ev enab l pr prf) =
+      .done [] (pEnv (ev ++ [.list [TransGrpc.nm "PrintfFn.call", prf, .bytes fmt, .list args]]) enab l pr prf) := by
+  apply run_of_fin (X P) _ _ Gen.TransGrpc.printer_Printf _ _ _ _ rfl rfl
+  rw [exec_succ]; simp [printer_Printf_body, pEnv, nm_printf]
+
+/-- `printer.Println`: skipped ONLY for a level below DPanic that is not enabled — a printer at DPanic, Panic or Fatal
+    (the `fatal` printer of the adapter) always reaches the delegate, with the `Sprintln` text minus its newline -/
+theorem printer_Println_matches_source (P : Par) (args ev : List Val) (enab pr prf : Val) (l : Int) (fuel : Nat)
+    (hne : P.sprintln args ≠ []) (hlen : ((P.sprintln args).length : Int) < 9223372036854775808) :
+    run (X P) (fuel + 2) "printer_Println" [.list args] (pEnv ev enab l pr prf) =
+      .done [] (pEnv (if l < 3 ∧ P.en enab l = false then ev
+        else ev ++ [.list [TransGrpc.nm "PrintFn.call", pr, .bytes (P.sprintln args).dropLast]]) enab l pr prf) := by
+  have hcall : ∀ σ : State, retK σ [.loc "l0"] "sprintln"
+      (exec (X P) (fuel + 1) sprintln_body ⟨[("p0", .list args)], pEnv ev enab l pr prf⟩) = _ :=
+    fun σ => retK_of_fin1 σ _ _ _ _ _ (sprintln_exec_matches_source P args _ fuel hne hlen)
+  apply run_of_fin (X P) _ _ Gen.TransGrpc.printer_Println _ _ _ _ rfl rfl
+  rw [exec_succ]
+  simp only [pEnv] at hcall ⊢
+  by_cases hl : l < 3
+  · cases hc : P.en enab l
+    · simp [printer_Println_body, hl, hc]
+    · simp [printer_Println_body, hl, hc, hcall, nm_print]
+  · simp [printer_Println_body, hl, hcall, nm_print]
+
+/-- a printer at Fatal level is never skipped by `Println` (the gRPC `Fatalln`) -/
+theorem printer_Println_fatal_never_skipped (P : Par) (args ev : List Val) (enab pr prf : Val) (l : Int) (fuel : Nat) (hl : 3 ≤ l)
+    (hne : P.sprintln args ≠ []) (hlen : ((P.sprintln args).length : Int) < 9223372036854775808) :
+    run (X P) (fuel + 2) "printer_Println" [.list args] (pEnv ev enab l pr prf) =
+      .done [] (pEnv (ev ++ [.list [TransGrpc.nm "PrintFn.call", pr, .bytes (P.sprintln args).dropLast]]) enab l pr prf) := by
+  rw [printer_Println_matches_source P args ev enab pr prf l fuel hne hlen]
+  have : ¬ l < 3 := by omega
+  simp [this]
+
+/-- `Infoln` / `Warningln` / `Errorln`: the delegate's method of THAT level, iff that level is enabled -/
+theorem Logger_ln_matches_source (P : Par) (args ev : List Val) (delegate en : Val) (fuel : Nat)
+    (hne : P.sprintln args ≠ []) (hlen : ((P.sprintln args).length : Int) < 9223372036854775808) :
+    run (X P) (fuel + 2) "Logger_Infoln" [.list args] (lEnv ev delegate en) =
+      .done [] (lEnv (if P.en en 0 then ev ++ [.list [TransGrpc.nm "Sugar.Info", delegate, .bytes (P.sprintln args).dropLast]] else ev) delegate en) ∧
+    run (X P) (fuel + 2) "Logger_Warningln" [.list args] (lEnv ev delegate en) =
+      .done [] (lEnv (if P.en en 1 then ev ++ [.list [TransGrpc.nm "Sugar.Warn", delegate, .bytes (P.sprintln args).dropLast]] else ev) delegate en) ∧
+    run (X P) (fuel + 2) "Logger_Errorln" [.list args] (lEnv ev delegate en) =
+      .done [] (lEnv (if P.en en 2 then ev ++ [.list [TransGrpc.nm "Sugar.Error", delegate, .bytes (P.sprintln args).dropLast]] else ev) delegate en) := by
+  have hcall : ∀ σ : State, retK σ [.loc "l0"] "sprintln"
+      (exec (X P) (fuel + 1) sprintln_body ⟨[("p0", .list args)], lEnv ev delegate en⟩) = _ :=
+    fun σ => retK_of_fin1 σ _ _ _ _ _ (sprintln_exec_matches_source P args _ fuel hne hlen)
+  simp only [lEnv] at hcall
+  refine ⟨?_, ?_, ?_⟩
+  · apply run_of_fin (X P) _ _ Gen.TransGrpc.Logger_Infoln _ _ _ _ rfl rfl
+    rw [exec_succ]
+    cases hc : P.en en 0 <;> simp [Logger_Infoln_body, lEnv, hc, hcall, nm_info]
+  · apply run_of_fin (X P) _ _ Gen.TransGrpc.Logger_Warningln _ _ _ _ rfl rfl
+    rw [exec_succ]
+    cases hc : P.en en 1 <;> simp [Logger_Warningln_body, lEnv, hc, hcall, nm_warn]
+  · apply run_of_fin (X P) _ _ Gen.TransGrpc.Logger_Errorln _ _ _ _ rfl rfl
+    rw [exec_succ]
+    cases hc : P.en en 2 <;> simp [Logger_Errorln_body, lEnv, hc, hcall, nm_error]
 
 end ZapVerif.C06
